@@ -24,6 +24,57 @@ def _names_load(node):
            {dotted(n) for n in ast.walk(node) if isinstance(n, ast.Attribute) and dotted(n)}
 
 
+def all_zero(test, truth, status):
+    """does `test` evaluating to `truth` imply that EVERY entry of the status tensor is zero?"""
+    def is_status(e):
+        d = dotted(e)
+        return d is not None and d in status
+    if isinstance(test, ast.UnaryOp) and isinstance(test.op, ast.Not):
+        return all_zero(test.operand, not truth, status)
+    if isinstance(test, ast.BoolOp):
+        if isinstance(test.op, ast.And) and truth:
+            return any(all_zero(v, True, status) for v in test.values)
+        if isinstance(test.op, ast.Or) and not truth:
+            return any(all_zero(v, False, status) for v in test.values)
+        return False
+    if isinstance(test, ast.Call):
+        d = dotted(test.func) or ''
+        red = d.split('.')[-1] if d else (test.func.attr if isinstance(test.func, ast.Attribute) else '')
+        inner = None
+        if d in ('torch.all', 'torch.any', 'all', 'any') and test.args:
+            inner = test.args[0]
+        elif isinstance(test.func, ast.Attribute) and red in ('all', 'any', 'item', 'bool') and not d.startswith('torch.'):
+            inner = test.func.value
+            if red in ('item', 'bool'):
+                return all_zero(inner, truth, status)
+        if inner is None:
+            return False
+        if red == 'any':
+            # not any(S != 0) ; not any(S) ; not S.any()
+            if is_status(inner):
+                return not truth
+            if isinstance(inner, ast.Compare) and len(inner.ops) == 1 and is_status(inner.left) and isinstance(inner.comparators[0], ast.Constant) \
+                    and inner.comparators[0].value == 0:
+                if isinstance(inner.ops[0], (ast.NotEq, ast.Gt)):
+                    return not truth
+            return False
+        if red == 'all':
+            if isinstance(inner, ast.Compare) and len(inner.ops) == 1 and is_status(inner.left) and isinstance(inner.comparators[0], ast.Constant) \
+                    and inner.comparators[0].value == 0 and isinstance(inner.ops[0], ast.Eq):
+                return truth
+            return False
+    if isinstance(test, ast.Compare) and len(test.ops) == 1 and isinstance(test.comparators[0], ast.Constant) and test.comparators[0].value == 0:
+        # S.abs().sum() == 0 / S.max() == 0 (non-negative LAPACK status) / S.any() == 0
+        l = test.left
+        if isinstance(l, ast.Call) and isinstance(l.func, ast.Attribute) and l.func.attr in ('sum', 'max', 'count_nonzero', 'any', 'norm'):
+            base = l.func.value
+            while isinstance(base, ast.Call) and isinstance(base.func, ast.Attribute) and base.func.attr in ('abs',):
+                base = base.func.value
+            if is_status(base):
+                return truth if isinstance(test.ops[0], ast.Eq) else (not truth if isinstance(test.ops[0], (ast.NotEq, ast.Gt)) else False)
+    return False
+
+
 def status_sites(repo, finfo):
     out = []
     for c in paths.calls_in(finfo.node):
@@ -77,7 +128,11 @@ def check_function(repo, finfo, res):
                     used = _names_load(st)
                     if isinstance(st, ast.Assert):
                         if used & status:
-                            checked = True
+                            if all_zero(st.test, True, status):
+                                checked = True
+                            else:
+                                verdicts.add('weak-check')
+                                bad_use = bad_use or st
                         continue        # an assertion inspects, it does not consume the factor
                     if isinstance(st, ast.Assign) and used & status and not (used & factors):
                         for t in st.targets:
@@ -90,13 +145,23 @@ def check_function(repo, finfo, res):
                         break
                 elif e[0] == 'assume' and seen:
                     if _names_load(e[1]) & status:
-                        checked = True
+                        if all_zero(e[1], e[2], status):
+                            checked = True
+                        elif ex != 'raise' and not all_zero(e[1], not e[2], status):
+                            verdicts.add('weak-check')
+                            bad_use = bad_use or e[1]
             if seen and checked:
                 verdicts.add('checked')
             elif seen and not verdicts & {'use-before-check', 'unbound'}:
                 # factor never used on this path: nothing to protect
                 pass
         ok = not (verdicts & {'use-before-check', 'unbound'})
+        if 'weak-check' in verdicts and not ok:
+            res.add(Finding('C10.STATUS', finfo, 'the check on the status of %s (`%s`) does not establish that EVERY factorisation of the batch '
+                            'succeeded: a batch with some failed items passes it' % (fname, src(bad_use)[:70]), node=callx,
+                            construct='weak status check ' + norm_construct(callx, finfo.node)))
+            res.inst({'function': finfo.fq, 'site': src(callx)[:80], 'discipline': sorted(verdicts)})
+            continue
         res.inst({'function': finfo.fq, 'site': src(callx)[:80], 'discipline': sorted(verdicts) or ['factor unused']})
         if not ok:
             res.add(Finding('C10.STATUS', finfo,
@@ -209,4 +274,5 @@ def rule_zero(repo, tier):
 
 
 def rules(repo, tier):
-    return [rule_status(repo, tier), rule_lstsq(repo, tier), rule_zero(repo, tier)]
+    from ..stale import rule_stale
+    return [rule_status(repo, tier), rule_lstsq(repo, tier), rule_zero(repo, tier), rule_stale(repo, 'C10.STALE', [(SOLVER, 'CG.forward')])]
